@@ -53,12 +53,21 @@ impl Scalar for SymF {
     }
 }
 
+fn jitter_on() -> bool {
+    static ON: std::sync::OnceLock<bool> = std::sync::OnceLock::new();
+    *ON.get_or_init(|| std::env::var("SYMX_JITTER").map(|v| v == "1").unwrap_or(false))
+}
+
 macro_rules! native_scalar {
     ($t:ty) => {
         impl Scalar for $t {
             fn input(name: &str, lo: i64, hi: i64, shift: u32) -> $t {
                 let h = with(|a| a.var(name, lo, hi, shift));
-                with(|a| a.val(h)) as $t
+                let v = with(|a| a.val(h));
+                // SYMX_JITTER (native cross-process replays only): a fixed non-dyadic offset per input, so that
+                // sums are no longer exact and their order shows in the last bits
+                let v = if jitter_on() { v + ((h as f64 * 0.6180339887498949).fract() * 0.25 + 0.0123456789) / (1u64 << shift) as f64 } else { v };
+                v as $t
             }
             fn lit(v: f64) -> $t {
                 v as $t
